@@ -57,6 +57,12 @@ TResult ==
                                  /\ (Cur.bodycomp => Cur.hdrenc)
                                  /\ (sc.proto = "connect" => Cur.hdrenc = Cur.bodycomp)
        \* a client that could not be configured: every API reports that error, the transport is never reached
+       \* C15: the handler's context ended on the server side alone and the handler returned ctx.Err(): the client is told
+       \* (with "early" the library itself answers before the handler function runs)
+       [] sc.op = "handler_ctx" ->
+            /\ ~Cur.stuck /\ ~Cur.ok
+            /\ Cur.code = (IF sc.text = "servercancel" THEN 1 ELSE 4)
+            /\ (sc.text # "early" => Cur.hctx /\ Cur.got = sc.n)
        [] sc.op = "client_init_fail" ->
             /\ Cur.reached = 0 /\ Len(Cur.codes) >= 8
             /\ IF sc.used = "badurl"
